@@ -459,7 +459,12 @@ where
                     //
                     // Connection handlers will be informed via `update_handlers` about the new items in wantlist.
                     TaskResult::Get(query_id, cid, Ok(None)) => {
-                        self.wantlist.insert(cid);
+                        if self.wantlist.insert(cid) {
+                            // Peers that delivered this block in the past must be asked again
+                            for state in self.peers.values_mut() {
+                                state.wantlist.wanted_again(&cid);
+                            }
+                        }
                         self.cid_to_queries.entry(cid).or_default().push(query_id);
                     }
 
